@@ -869,7 +869,7 @@ func C02() *check.Property {
 		Title:    "Serialized delivery: an observer's callbacks never overlap",
 		Patterns: cat(CorePatterns, PluginPkgs, []string{PromPkg}, RatePkgs),
 		Scope:    []string{ro},
-		Rules:    []check.Rule{ruleMultiProducerSafe(), ruleNoDowngrade(), ruleModeTable(), ruleLockRegion(), ruleSubjectBroadcastLocked()},
+		Rules:    []check.Rule{ruleMultiProducerSafe(), ruleNoDowngrade(), ruleModeTable(), ruleLockRegion(), ruleSubjectBroadcastLocked(), ruleWrap()},
 		Explanation: "Static argument in five structural premises. (1) LOCK-REGION: every delivery of a subscriber happens inside the lock region of its producer lock (CFG lock-set data-flow). " +
 			"(2) MODE-TABLE: that lock is a real mutex exactly for safe/eventually-safe observables (constructor delegation chains, the mode switch and the xsync mutexes are checked, not trusted by name). " +
 			"(3) MULTI-PRODUCER=>SAFE: from the model of each subscribe closure (subscribe sites, goroutines, timers, local closures, inlined helpers) the contexts that can notify the destination are computed and every pair that " +
@@ -879,6 +879,6 @@ func C02() *check.Property {
 		NotDecided:  "overlap caused by user-written observables or custom Observer implementations; fairness; that a source assumed sequential really is; the mutual exclusion provided by sync.Mutex itself.",
 		Assumptions: []string{"every individual source is sequential (the property's own hypothesis)", "sync.Mutex and sync/atomic behave as specified", "the model walker understood every construct of the armed subscribe closures (unknown constructs fail closed)"},
 		Floors:      map[string]int{"scs_checked": 120, "multi_producer_scs": 20, "dest_emit_sites": 350, "constructors": 10, "delivering_methods": 3, "subject_types": 5, "subject_notifications": 15},
-		Controls:    map[string]string{"zz_verif_controls_c02.go": roControl(controlsC02)},
+		Controls:    map[string]string{"zz_verif_controls_c02.go": roControl(controlsC02), "zz_verif_controls_c01.go": roControl(controlsC01)},
 	}
 }
